@@ -128,6 +128,23 @@ class ArrayTheory:
     def add_qfact(self, st, fn, name='', marker=None):
         st.qfacts = list(getattr(st, 'qfacts', [])) + [QFact(fn, marker, name)]
 
+    def hint_instances(self, st, terms, passes=2):
+        """Proof hint: ground instances of every quantified fact of `st` at the given Int terms (the instances a lemma's
+        paper proof uses).  Only adds consequences of facts already assumed."""
+        done = set()
+        for _ in range(passes):
+            for q in list(getattr(st, 'qfacts', [])):
+                for t in terms:
+                    key = (id(q), t.get_id())
+                    if key in done:
+                        continue
+                    done.add(key)
+                    try:
+                        inst = q.fn(self, st, t)
+                    except E.Unsupported:
+                        continue
+                    st.assume(z3.Implies(q.marker, inst) if q.marker is not None else inst)
+
     def index_terms(self, exprs, limit=14):
         """Int-sorted terms worth instantiating at: arguments of uninterpreted functions and Int constants."""
         seen, out = set(), []
@@ -201,13 +218,17 @@ class ArrayTheory:
         q.extra_q = list(s2.qfacts[len(st.qfacts):])
         return trig
 
-    def instantiate(self, st, goal, rounds=int(__import__("os").environ.get("PV_INST_ROUNDS", "3"))):
+    def instantiate(self, st, goal, rounds=None):
         """Ground instances of the state's quantified facts, chosen by E-matching: a fact is instantiated at the terms that
         occur (in the goal, the path or earlier instances) as arguments of the functions its body applies to the bound
         variable.  Facts registered while instantiating (membership / first-index axioms of new terms) join the working set."""
         qf = list(getattr(st, 'qfacts', []))
         if not qf:
             return []
+        if rounds is None:
+            # one eager E-matching round; what it misses is found by model-based refinement of the solver's answer (refine below).
+            # A contract may ask for more eager rounds (inst_rounds) where refinement alone does not converge.
+            rounds = int(__import__('os').environ.get('PV_INST_ROUNDS', 0) or self.c.get('inst_rounds', 1))
         facts = []
         done = set()
         work = st.fork()
@@ -327,6 +348,122 @@ class ArrayTheory:
             facts.extend(new)
             index(new)
         return facts
+
+    def refine(self, ob, discharge, rounds=12, pool_limit=160, budget_s=40.0):
+        """Model-based instantiation for an obligation the solver answered `sat` on a finite set of instances: evaluate every
+        quantified fact at every index term of the formula under the model; add the instances the model violates and ask again.
+        `unsat` is then a proof (only consequences of assumed facts were added); a model that satisfies every instance over the
+        pool is kept as the counter-model; running out of budget leaves the obligation undecided."""
+        import time as _t
+        st = getattr(self, '_refine_states', {}).get(id(ob))
+        if st is None or not getattr(st, 'qfacts', None):
+            return
+        t0 = _t.time()
+        added_total = 0
+        done = set()
+        for rnd in range(rounds):
+            s = z3.Solver()
+            s.set('timeout', 20000)
+            for p_ in ob.path:
+                s.add(p_)
+            s.add(z3.Not(ob.goal))
+            r = s.check()
+            if r == z3.unsat:
+                ob.verdict, ob.model = 'discharged', None
+                ob.backend = (ob.backend or 'z3') + ' + model-based instantiation (%d instances)' % added_total
+                ob.reason = ''
+                return
+            if r != z3.sat:
+                ob.verdict, ob.reason = 'unknown', 'z3 %s during model-based instantiation' % s.reason_unknown()
+                return
+            m = s.model()
+            pool = self.index_terms([ob.goal] + list(ob.path), limit=pool_limit) + [z3.IntVal(0), z3.IntVal(1)]
+            # one representative per model value: equal indices give equal instances under the model
+            reps, vals = [], set()
+            for t in pool:
+                try:
+                    v = m.eval(t, model_completion=True)
+                    key = v.as_long() if z3.is_int_value(v) else str(v)
+                except Exception:
+                    key = t.get_id()
+                if key not in vals:
+                    vals.add(key)
+                    reps.append(t)
+            new = []
+            work = st.fork()
+            qf = list(work.qfacts)
+            # occurrences of every uninterpreted function in the current formula (for trigger-based candidate terms)
+            occ, seen_ = {}, set()
+            stack = [ob.goal] + list(ob.path)
+            while stack:
+                x = stack.pop()
+                if x.get_id() in seen_:
+                    continue
+                seen_.add(x.get_id())
+                if z3.is_app(x) and x.num_args() > 0:
+                    if x.decl().kind() == z3.Z3_OP_UNINTERPRETED:
+                        occ.setdefault(x.decl().name(), []).append(x.children())
+                    stack.extend(x.children())
+                elif z3.is_quantifier(x):
+                    stack.append(x.body())
+
+            def by_value(terms):
+                out, vs = [], set()
+                for t in terms:
+                    try:
+                        v = m.eval(t, model_completion=True)
+                        k_ = v.as_long() if z3.is_int_value(v) else str(v)
+                    except Exception:
+                        k_ = t.get_id()
+                    if k_ not in vs:
+                        vs.add(k_)
+                        out.append(t)
+                return out
+            for q in qf:
+                trig = self.qfact_triggers(work, q)
+                if trig:
+                    cand = []
+                    for name, pos, c in trig:
+                        for ch in occ.get(name, ()):
+                            if pos < len(ch) and ch[pos].sort() == I:
+                                cand.append(z3.simplify(ch[pos] - c) if c else ch[pos])
+                    cand = by_value(cand)
+                else:
+                    cand = reps
+                for t in cand:
+                    key = (id(q), t.get_id())
+                    if key in done:
+                        continue
+                    if _t.time() - t0 > budget_s:
+                        break
+                    s2 = work.fork()
+                    try:
+                        inst = q.fn(self, s2, t)
+                    except E.Unsupported:
+                        continue
+                    if q.marker is not None:
+                        inst = z3.Implies(q.marker, inst)
+                    side = s2.path[len(work.path):]
+                    try:
+                        bad = [f for f in [inst] + list(side) if z3.is_false(m.eval(f, model_completion=True))]
+                    except z3.Z3Exception:
+                        bad = []
+                    if bad:
+                        done.add(key)
+                        new.extend(side)
+                        new.append(inst)
+                        for q2 in s2.qfacts[len(work.qfacts):]:
+                            qf.append(q2)
+                            work.qfacts.append(q2)
+            if not new:
+                ob.backend = (ob.backend or 'z3') + ' (counter-model satisfies every quantified fact over %d index values)' % len(reps)
+                return
+            if _t.time() - t0 > budget_s:
+                ob.verdict, ob.reason = 'unknown', 'model-based instantiation budget exhausted'
+                return
+            added_total += len(new)
+            ob.path = list(ob.path) + new
+        ob.verdict, ob.reason = 'unknown', 'model-based instantiation did not converge in %d rounds' % rounds
 
     def add_elem_lemma(self, st, arrs, fn, name=''):
         """A lemma quantified over *elements* x (sort PyVal), instantiated at every x for which `x in a` is mentioned for one
@@ -578,6 +715,23 @@ class ArrayTheory:
             if not self.in_spec():
                 st.assume(z3.And(i >= 0, i < o.n))      # IndexError ends the path
             return o.at(self, st, i)
+        if isinstance(o, E.Tup) and o.items and isinstance(k, E.Tup) and getattr(k, 'kind', '') == 'slice' and self.c.get('sequences'):
+            o = self.arr_from_tup(o)
+        if isinstance(o, Arr) and isinstance(k, E.Tup) and getattr(k, 'kind', '') == 'slice' and len(k.items) == 3:
+            lo_, hi_, step_ = k.items
+            none = lambda v: isinstance(v, E.Const) and v.v is None
+            if none(step_) and all(none(v) or (isinstance(v, E.Num) and v.is_int) for v in (lo_, hi_)):
+                # a[lo:hi] with Python's clamping of the bounds; negative bounds count from the end
+                def bound(v, default):
+                    if none(v):
+                        return default
+                    t = int_term(v)
+                    t = z3.If(t < 0, t + o.n, t)
+                    return z3.If(t < 0, 0, z3.If(t > o.n, o.n, t))
+                lo, hi = bound(lo_, z3.IntVal(0)), bound(hi_, o.n)
+                n2 = z3.If(hi > lo, hi - lo, 0)
+                out = Arr(z3.simplify(n2), lambda e, s, j: o.at(e, s, lo + j), np=getattr(o, 'np', False), taint=o.taint, name='slice')
+                return out
         if isinstance(o, Arr) and isinstance(k, Arr):
             # boolean mask / fancy indexing: opaque
             return E.Obj(self.fresh('fancy', V), cls='ndarray', taint=E.t_or(o.taint, k.taint))
